@@ -141,7 +141,7 @@ def run(tier, seed):
                                     theorem=pg['theorems'], problems=pg['problems']), False))
     ncases = 40 if tier == 'quick' else 500
     cases = [seed * 100000 + 15000 + i for i in range(ncases)]
-    for r in core.run_cases(run_case, cases):
+    for r in core.run_cases(run_case, core.with_corpus(PID, cases)):
         rep.merge(r)
     rep.obligation('correspondence: Level.stream_iter_all = list(LevelDataStream.__iter__) under 4 completion orders',
                    not any(v[0].get('kind') == 'iter-sequence' for v in rep.violations))
